@@ -75,6 +75,16 @@ def input_binding(ctx, prog):
         R.only_terms(ctx, "C04-D1/GATE", sg, x, allowed + ["private_key is not None", f"{txi}.script is not None", f"{txi}.txo_ref.txo is not None"], "every p2pkh / p2sh input is signed — no further condition", key=f"C04-D1/GATE|{q}|sign-always|{norm_text(x.targets[0])[:40]}")
         ok = sg.guarded(x, "txo_script.is_pay_pubkey_hash or txo_script.is_pay_script_hash")[0]
         ctx.ob("C04-D1/GATE", ok, sg.site(x), "…and only those", func=q)
+    cr_ = ctx.fa(f"{T}.Transaction.create")
+    sc = cr_.calls(dotted_name="tx.sign")
+    dflt = {a.arg: d for a, d in zip(reversed(cr_.node.args.args), reversed(cr_.node.args.defaults))}
+    ok = len(sc) == 1 and is_const(dflt.get("sign"), True) and [norm_text(a) for a in sc[0].args] == ["funding_accounts"] and isinstance(sc[0]._parent, ast.Await)
+    ctx.ob("C04-D1/GATE", ok, cr_.site(), "Transaction.create signs with the funding accounts by default (sign=True)", func=cr_.fi.qualname, key="C04-D1/GATE|create-signs")
+    for c_ in sc:
+        R.only_terms(ctx, "C04-D1/GATE", cr_, c_, ["sign", "payment < cost", "payment > cost", "change_amount > DUST", "tx._outputs", "spendables"],
+                     "…whenever sign is set — no further condition", key="C04-D1/GATE|create-signs-exact")
+        ok = cr_.guarded(c_, "sign")[0]
+        ctx.ob("C04-D1/GATE", ok, cr_.site(c_), "…and only then", func=cr_.fi.qualname)
     rz = [r for r, k in R.raise_kinds(sg) if k == "NotImplementedError"]
     ok = len(rz) == 1 and sg.guarded(rz[0], "not (txo_script.is_pay_pubkey_hash or txo_script.is_pay_script_hash)")[0]
     ctx.ob("C04-D1/GATE", ok, sg.site(), "an input spending any other kind of output makes sign() fail — it is never left unsigned silently", func=q, key=f"C04-D1/GATE|{q}|unknown-raises")
